@@ -452,39 +452,54 @@ func (env *SpecEnv) call(e *SExpr) specVal {
 		n := *env
 		n.st = env.old
 		n.locals = nil
+		n.vars = map[string]specVal{}
+		for k, v := range fx.params {
+			n.vars[k] = v
+		}
+		for k, v := range env.vars {
+			n.vars[k] = v
+		}
 		return n.expr(e.Args[0])
 	case "forall", "exists":
-		var name string
-		var typ types.Type
-		var body *SExpr
-		var rng *Term
-		switch len(e.Args) {
-		case 2:
-			name, typ = env.bindVar(e.Args[0])
-			body = e.Args[1]
-		case 4:
-			name, typ = env.bindVar(e.Args[0])
-			body = e.Args[3]
-		default:
-			env.fail("%s takes (k, P) or (k, lo, hi, P)", e.Name)
+		binders, body, pats := splitQuant(e)
+		if len(binders) < 1 || body == nil {
+			env.fail("%s needs binders and a body", e.Name)
 		}
-		fx.c.nfresh++
-		bv := Var(fmt.Sprintf("%s!q%d", name, fx.c.nfresh), fx.e.sortOf(typ))
-		inner := env.with(name, specVal{bv, typ})
-		if len(e.Args) == 4 {
-			lo := env.expr(e.Args[1]).t
-			hi := env.expr(e.Args[2]).t
-			rng = And(Le(lo, bv), Lt(bv, hi))
-		} else if lo, hi, ok := intRange(typ); ok && typ != tInt {
-			rng = And(Le(lo, bv), Le(bv, hi))
+		inner := env
+		var bvs []*Term
+		var rng []*Term
+		if len(binders) == 3 && binders[0].Kind == "ident" {
+			// forall(k, lo, hi, P)
+			fx.c.nfresh++
+			bv := Var(fmt.Sprintf("%s!q%d", binders[0].Name, fx.c.nfresh), SInt)
+			lo := env.expr(binders[1]).t
+			hi := env.expr(binders[2]).t
+			inner = env.with(binders[0].Name, specVal{bv, tInt})
+			bvs = append(bvs, bv)
+			rng = append(rng, Le(lo, bv), Lt(bv, hi))
 		} else {
-			rng = True
+			for _, a := range binders {
+				name, typ := env.bindVar(a)
+				fx.c.nfresh++
+				bv := Var(fmt.Sprintf("%s!q%d", name, fx.c.nfresh), fx.e.sortOf(typ))
+				inner = inner.with(name, specVal{bv, typ})
+				bvs = append(bvs, bv)
+				if tr := fx.typeInvQ(bv, typ); !tr.IsTrue() {
+					rng = append(rng, tr)
+				}
+			}
 		}
 		b := inner.boolExpr(body)
-		if e.Name == "forall" {
-			return specVal{Forall([]*Term{bv}, Implies(rng, b)), tBool}
+		var pts []*Term
+		for _, p := range pats {
+			for _, a := range p.Args {
+				pts = append(pts, inner.expr(a).t)
+			}
 		}
-		return specVal{Exists([]*Term{bv}, And(rng, b)), tBool}
+		if e.Name == "forall" {
+			return specVal{Forall(bvs, Implies(And(rng...), b), pts...), tBool}
+		}
+		return specVal{Exists(bvs, And(append(rng, b)...)), tBool}
 	case "len":
 		x := env.expr(e.Args[0])
 		switch {
@@ -616,14 +631,19 @@ func (env *SpecEnv) callSpec(sf *SpecFunc, args []specVal) specVal {
 		if sf.Body == nil {
 			fx.c.DeclareFun(name, sorts, fx.e.sortOf(rt))
 		} else if sf.Rec {
-			// declare first so the body can refer to it
-			fx.c.DeclareFun(name+"!fwd", sorts, fx.e.sortOf(rt))
-			delete(fx.c.declIdx, name+"!fwd")
-			fx.c.decls = fx.c.decls[:len(fx.c.decls)-1]
-			fx.c.declIdx[name] = &decl{name: name} // placeholder to allow recursion
+			// declare first so that the body can refer to the function, then turn
+			// the declaration into a define-fun-rec
+			fx.c.DeclareFun(name, sorts, fx.e.sortOf(rt))
 			body := inner.expr(sf.Body)
-			delete(fx.c.declIdx, name)
-			fx.c.DefineFun(name, params, fx.e.sortOf(rt), body.t, true)
+			d := fx.c.declIdx[name]
+			d.params, d.args, d.body, d.rec = params, nil, body.t, true
+			// move behind everything declared while translating the body
+			for i, x := range fx.c.decls {
+				if x == d {
+					fx.c.decls = append(append(fx.c.decls[:i:i], fx.c.decls[i+1:]...), d)
+					break
+				}
+			}
 		} else {
 			body := inner.expr(sf.Body)
 			fx.c.DefineFun(name, params, fx.e.sortOf(rt), body.t, false)
@@ -718,4 +738,22 @@ func (env *SpecEnv) assignLoc(e *SExpr) *assignLoc {
 	}
 	env.fail("unsupported assigns target %s", e)
 	return nil
+}
+
+// splitQuant splits forall/exists arguments into binders, body and trailing pattern(...) items.
+func splitQuant(e *SExpr) (binders []*SExpr, body *SExpr, pats []*SExpr) {
+	args := e.Args
+	for len(args) > 0 {
+		l := args[len(args)-1]
+		if l.Kind == "call" && l.Name == "pattern" {
+			pats = append([]*SExpr{l}, pats...)
+			args = args[:len(args)-1]
+			continue
+		}
+		break
+	}
+	if len(args) < 2 {
+		return nil, nil, nil
+	}
+	return args[:len(args)-1], args[len(args)-1], pats
 }
